@@ -8,3 +8,18 @@ import jax.extend.core  # noqa: E402
 
 if not hasattr(jax.core, 'get_opaque_trace_state'):
   jax.core.get_opaque_trace_state = jax.extend.core.get_opaque_trace_state
+
+# the installed jax also dropped the (long deprecated) `concrete` argument of jax.remat, which
+# flax.core.lift.checkpoint still passes (always False unless the user asks otherwise)
+import functools  # noqa: E402
+import inspect  # noqa: E402
+
+if 'concrete' not in inspect.signature(jax.remat).parameters:
+  _remat = jax.remat
+
+  @functools.wraps(_remat)
+  def _remat_compat(fun, *, concrete=False, **kw):
+    if concrete:
+      raise NotImplementedError('jax.remat(concrete=True) is not available in the installed jax')
+    return _remat(fun, **kw)
+  jax.remat = _remat_compat
